@@ -30,3 +30,19 @@ reg("C02",
     rule="case = (nf x grid family x nd x dtypes x leading dims x designed 1-D shape x peak position class [x alpha window population]) per statistic; distinct = distinct keys; non-trivial = every case whose oracle was well conditioned",
     must_observe=["tp", "tp_smooth", "dpm", "dpspr", "dp", "alpha", "gamma"],
     must_note=["alpha_window_0", "alpha_window_1", "alpha_window_many"])
+
+reg("C04", asan=True, crash_is_violation=True,
+    technique="runtime monitor: structural invariants of the label map returned by the real extension (ASan+UBSan build) against a set-theoretic model of regional minima / connectivity; exhaustive small grids + random",
+    level_text="Every label map returned by wavespectra.partition.specpart.partition (compiled from the working tree with AddressSanitizer+UBSan) is checked against a set model: every bin labelled, labels == regional maxima of the discretised spectrum, one maximum per label, labels connected on the circular 8-neighbour grid, partition commutes with circular shifts. A finite sub-space is enumerated completely (evidence: exhaustive_subspace); beyond it cases are random. Held = on the executions observed.",
+    level_note="Trusted: numpy, vf/oracle/watershed.py (independent of the immersion algorithm), the level discretisation as documented (round half away of (zmax-z)(ihmax-1)/(zmax-zmin) on the float32 buffer); real-valued cases within 1e-6 of a rounding boundary are inconclusive; constant spectra are outside the statement.",
+    rule="exhaustive: every spectrum over {0..a-1} with both extremes present (ihmax=a) for all shapes up to the bin bound, each with its unit shift; random: (value kind x size class x nk/nth in {1,2,n} x ihmax); distinct = distinct (stream, shape or class, ihmax) keys; every non-constant map is non-trivial",
+    must_observe=["map_exhaustive", "shift_exhaustive", "map_random", "shift_random"],
+    timeout={"quick": 900, "thorough": 7200})
+
+reg("C20", asan=True, crash_is_violation=True,
+    technique="sanitizers + runtime exception monitor: ASan/UBSan stand-alone driver over exhaustive small grids, random contents and re-allocation sequences with a termination watchdog; exception / finiteness / ValueError monitor around public calls on degenerate inputs (ASan extension in-process)",
+    level_text="The repository's specpart.c is linked unmodified into an AddressSanitizer+UBSan driver whose buffers are malloc'd at their exact size; every binary spectrum on every shape up to the stated bin bound is fed with six level counts, plus random contents and shape sequences that grow, shrink and transpose, under a watchdog. At Python level every public statistic/transform/partition is called on degenerate spectra and must return (NaN only where documented); invalid arguments must raise ValueError. Held = on the executions observed; a clean sanitizer run is not memory safety beyond the inputs driven.",
+    level_note="Trusted: clang-14 ASan/UBSan (red zones miss non-adjacent overflows), the driver vf/native/driver.c, the NaN-allowance table in vf/checks/c20.py (zero energy, no interior peak, sw below 0.001 m, hmax with fewer than one wave per step, spreads at the rounding floor). hp01, tracking and the curve-fitting helpers are experimental/optimisers and are not required to succeed. ihmax<1, NaN and non-float32/non-contiguous raw inputs are outside the statement.",
+    rule="native: (shape x ihmax) for exhaustive binary contents, (sequence-length class) for re-allocation sequences; python: (degenerate class x nf x nd x leading dims x dtype) per operation, invalid-argument kinds; distinct = distinct keys; all are non-trivial by construction (edge inputs)",
+    must_observe=["native_exhaustive", "native_sequence", "py_alpha", "py_ptm1", "invalid_smooth_even_freq"],
+    timeout={"quick": 900, "thorough": 10800}, timeout_is_violation=False)
